@@ -7,19 +7,28 @@ DRIVERS = [
     dict(name="life_noop", src="life.cpp", defines=["LIFE_NOOP"], ops=["lifen"]),
     dict(name="life_dylib", src="life.cpp", defines=["LIFE_DYLIB"], ops=["lifed"]),
 ]
-ALPHA14 = ["c:0:1", "c:0:0", "d:0", "m:0", "f:0", "fo:0", "fv:0:1", "fv:0:0", "fv:1:0", "r:0:0:1", "u:0", "l:0:5", "il:0:5", "lb:0:5", "lb:0:6", "ilb:0:6", "lb:1:5", "fa:0:5", "fa:0:6", "x:0:64", "gs:0:0",
+ALPHA14 = ["c:0:1", "c:0:0", "c:0:2", "d:0", "m:0", "f:0", "fo:0", "fv:0:1", "fv:0:0", "fv:1:0", "r:0:0:1", "u:0", "l:0:5", "il:0:5", "lb:0:5", "lb:0:6", "ilb:0:6", "lb:1:5", "fa:0:5", "fa:0:6", "x:0:64", "gs:0:0",
            "c:1:1", "d:1", "x:1:4096", "r:1:1:1", "r:1:0:1", "m:1", "c:2:1", "d:2", "x:2:0", "q:0"]
 
 
 def gen_life(tier, rng, translation_heavy=False):
     cases = []
     depth = 3 if tier == "quick" else 4
-    alpha = ALPHA14 if not translation_heavy else ["c:0:1", "d:0", "c:1:1", "d:1", "c:2:1", "d:2", "x:0:64", "x:1:4095", "x:2:0", "c:0:0"]
+    alpha = ALPHA14 if not translation_heavy else ["c:0:1", "d:0", "c:1:1", "d:1", "c:2:1", "d:2", "x:0:64", "x:1:4095", "x:2:0", "c:0:0", "c:0:2", "c:1:2"]
     if translation_heavy:
         depth = 4 if tier == "quick" else 6
     for d in range(1, depth + 1):
         for ops in itertools.product(alpha, repeat=d):
             cases.append("life32 " + " ".join(ops))
+    # a creation that fails LATE (the back end had recorded a base already): the instance must not be consulted for translations
+    for pre in (["c:0:2"], ["c:0:1", "d:0", "c:0:2"], ["c:1:1", "c:0:2"], ["c:0:2", "c:1:1"]):
+        for tail in (["x:0:64"], ["x:0:64", "x:1:64"], ["m:0"], ["d:0"], ["c:0:1"]):
+            cases.append("life32 " + " ".join(pre + tail))
+    if not translation_heavy:
+        # outside the created window in each of its forms: never created, destroyed, stuck after a failed create
+        for pre in (["c:0:1", "r:0:0:1", "d:0", "c:0:0"], ["c:0:1", "r:0:0:1", "d:0"], ["c:0:0"], []):
+            for tail in (["u:0"], ["f:0"], ["fo:0"], ["fv:0:1"], ["m:0"], ["r:1:0:2"], ["u:0", "q:0"], ["c:1:1", "fv:0:1", "u:0"]):
+                cases.append("life32 " + " ".join(pre + tail))
     for _ in range(4000 if tier == "quick" else 40000):
         n = rng.randrange(4, 16)
         cases.append("life32 " + " ".join(rng.choice(alpha) for _ in range(n)))
@@ -43,6 +52,6 @@ def NONTRIVIAL(case, model, cls):
 
 RULE = ("histories over 3 sandbox objects of verif32 (create with injected failure, destroy, malloc, free, register, unregister, by-name lookup and internal lookup (back end asked or "
         "served from cache), guest call of a raw entry-point slot, example-based pointer translation into each object's region): exhaustive to depth 3 (quick)/4 (thorough) over an alphabet "
-        "of 27 operations, random to length 15; every seventh history also on rlbox_noop_sandbox. Every outcome of every step is compared; an abort ends the history.")
+        "of 28 operations, random to length 15; every seventh history also on rlbox_noop_sandbox. Every outcome of every step is compared; an abort ends the history.")
 TRUSTED = ["model coq/World.v hand-written; tied by differential correspondence of whole histories"]
 ASSUMPTIONS = ["abort is terminal (the history ends at the first failed dynamic_check)", "single thread (C18 covers threads)"]
